@@ -10,11 +10,13 @@
 (*         k-th kernel call in that routine: [t |-> "d", n |-> dummy] or       *)
 (*         [t |-> "l", v |-> literal text]                                     *)
 (*   orig  orig[k][j] = text written at that position in the source invoke     *)
+(*   okinds okinds[k][j] = kind of that argument (kernel signature of the spec) *)
+(*   dtypes declared type class of every dummy (<<>> = not itemised)            *)
 EXTENDS Naturals, Sequences, FiniteSets, TLC, Json, IOUtils
 
 Cases == JsonDeserialize(IOEnv.PV_CASES)
 
-VARIABLES sid, inv, pos, acts, akeys, dums, dkeys, kargs   \* InvokeBinding's (unused)
+VARIABLES sid, inv, pos, acts, akeys, dums, dkeys, kargs, ninv, flat   \* InvokeBinding's (unused)
 VARIABLES cid, ph, k, j, nbad
 IB == INSTANCE InvokeBinding WITH Api <- "lfric", Stride <- 1, Offset <- 0,
                                   AlgKey <- "canon", PsyKey <- "canon"
@@ -25,7 +27,7 @@ C == Cases[cid]
 Init == /\ cid \in 1..Len(Cases)
         /\ ph = "head" /\ k = 1 /\ j = 1 /\ nbad = 0
         /\ sid = 0 /\ inv = 0 /\ pos = 0 /\ acts = <<>> /\ akeys = <<>>
-        /\ dums = <<>> /\ dkeys = <<>> /\ kargs = <<>>
+        /\ dums = <<>> /\ dkeys = <<>> /\ kargs = <<>> /\ ninv = 0 /\ flat = <<>>
 
 Report(clause, w) ==
     PrintT("VERDICT " \o ToJson([id |-> C.id, v |-> clause, w |-> w]))
@@ -37,6 +39,8 @@ HeadFailures ==
     \cup (IF IB!SameLength(c.acts, c.dums) THEN {} ELSE {"SameLength"})
     \cup (IF IB!NoDuplicateDummies(c.dums) THEN {} ELSE {"NoDuplicateDummies"})
     \cup (IF IB!ActualsFromInvoke(c.acts, c.orig) THEN {} ELSE {"ActualsFromInvoke"})
+    \cup (IF IB!TypeMismatches(c.acts, c.dtypes, c.orig, c.okinds) = {} THEN {}
+          ELSE {"TypeAgree"})
 
 \* next (k, j) with an argument, searching from (k0, j0); <<0, 0>> if none
 RECURSIVE NextArg(_, _, _)
@@ -50,7 +54,7 @@ HeadStep ==
     /\ LET bad == HeadFailures
            nx  == NextArg(C.kargs, 1, 1)
        IN /\ \A b \in bad : Report(b, [nacts |-> Len(C.acts), ndums |-> Len(C.dums)])
-          /\ IF [i \in DOMAIN C.acts |-> IB!Canon(C.acts[i])] = IB!PredictedActuals(C.orig)
+          /\ IF [i \in DOMAIN C.acts |-> IB!Canon(C.acts[i])] = IB!PredictedActuals(C.orig, C.okinds)
              THEN TRUE
              ELSE PrintT("DIVERGE " \o ToJson([id |-> C.id, v |-> "PredictedActuals"]))
           /\ nbad' = Cardinality(bad)
@@ -72,8 +76,8 @@ ArgStep ==
              ELSE /\ ph' = "args" /\ k' = nx[1] /\ j' = nx[2]
     /\ UNCHANGED cid
 
-Step == (HeadStep \/ ArgStep) /\ UNCHANGED <<sid, inv, pos, acts, akeys, dums, dkeys, kargs>>
-Spec == Init /\ [][Step]_<<tvars, sid, inv, pos, acts, akeys, dums, dkeys, kargs>>
+Step == (HeadStep \/ ArgStep) /\ UNCHANGED <<sid, inv, pos, acts, akeys, dums, dkeys, kargs, ninv, flat>>
+Spec == Init /\ [][Step]_<<tvars, sid, inv, pos, acts, akeys, dums, dkeys, kargs, ninv, flat>>
 
 \* single-case replay configuration: the property as a TLC invariant
 InvAgree == ph = "done" => nbad = 0
